@@ -13,6 +13,7 @@ import asyncio
 import threading
 import types
 
+TIMEOUT = object()
 STREAM = ['sync_tcp', 'sync_serial', 'aio_tcp', 'tw_tcp']
 DATAGRAM = ['sync_udp', 'aio_udp', 'tw_udp']
 ALL = STREAM + DATAGRAM
@@ -50,7 +51,7 @@ class FakeServer(object):
 
 def _conns(script):
     out = []
-    for c, _ in script:
+    for c, _d, _f in script:
         if c not in out:
             out.append(c)
     return out
@@ -82,6 +83,9 @@ class _SyncConn(object):
                 self.handler.running = False
             return b''
         data, self.inbox = self.inbox, None
+        if data is TIMEOUT:
+            import socket
+            raise socket.timeout('timed out')
         return data
 
     def send(self, data):
@@ -144,12 +148,12 @@ def _run_sync_stream(frontend, framing_cls, ctx, script, flags):
         res.sent[c] = []
         res.closed[c] = False
         start(c)
-    for c, data in script:
+    for c, data, _flag in script:
         conn = conns[c]
         if conn.finished:
             res.dropped += 1
             continue
-        if not conn.deliver(data):
+        if not conn.deliver(TIMEOUT if data is None else data):
             res.hung = True
             break
         if conn.finished:
@@ -178,7 +182,7 @@ def _run_sync_udp(framing_cls, ctx, script, flags):
         def sendto(self, data, addr):
             res.sent.setdefault(addr[1] - 1000, []).append(bytes(data))
             return len(data)
-    for c, data in script:
+    for c, data, _flag in script:
         try:
             ss.ModbusDisconnectedRequestHandler((data, Sock()), ('127.0.0.1', 1000 + c), srv)
         except BaseException as e:
@@ -239,12 +243,14 @@ def _run_aio(frontend, framing_cls, ctx, script, flags):
                 h.connection_made(t)
                 handlers[c], transports[c] = h, t
                 await asyncio.sleep(0)
-            for c, data in script:
+            for c, data, flag in script:
                 h, t = handlers[c], transports[c]
                 if res.closed[c]:
                     res.dropped += 1
                     continue
                 h.data_received(data)
+                if flag == 'burst':
+                    continue
                 await settle(h)
                 if t.is_closed:
                     res.closed[c] = True
@@ -260,6 +266,11 @@ def _run_aio(frontend, framing_cls, ctx, script, flags):
                     res.closed[c] = True
             for c, h in handlers.items():
                 if not res.closed[c]:
+                    await settle(h)
+                    if transports[c].is_closed:
+                        res.closed[c] = True
+            for c, h in handlers.items():
+                if not res.closed[c]:
                     h.connection_lost(None)
             await asyncio.sleep(0)
         else:
@@ -270,11 +281,13 @@ def _run_aio(frontend, framing_cls, ctx, script, flags):
             h = sa.ModbusDisconnectedRequestHandler(srv)
             h.connection_made(t)
             await asyncio.sleep(0)
-            for c, data in script:
+            for c, data, flag in script:
                 if h.handler_task.done():
                     res.dropped += 1
                     continue
                 h.datagram_received(data, ('127.0.0.1', 1000 + c))
+                if flag == 'burst':
+                    continue
                 await settle(h)
                 if h.handler_task.done():
                     exc = None
@@ -283,6 +296,8 @@ def _run_aio(frontend, framing_cls, ctx, script, flags):
                     except BaseException as e:
                         exc = e
                     res.escaped.append((c, 'handler task ended: %r' % (exc,)))
+            if not h.handler_task.done():
+                await settle(h)
             serving_errors = list(loop_errors)
             if not h.handler_task.done():
                 h.handler_task.cancel()
@@ -340,7 +355,7 @@ def _run_tw_tcp(framing_cls, ctx, script, flags):
         t = RecTransport(c)
         p.makeConnection(t)
         protos[c] = (p, t)
-    for c, data in script:
+    for c, data, _flag in script:
         p, t = protos[c]
         if res.closed[c]:
             res.dropped += 1
@@ -369,7 +384,7 @@ def _run_tw_udp(framing_cls, ctx, script, flags):
         res.sent[c] = []
         res.closed[c] = False
     p.transport = types.SimpleNamespace(write=lambda d, a: res.sent.setdefault(a[1] - 1000, []).append(bytes(d)))
-    for c, data in script:
+    for c, data, _flag in script:
         try:
             p.datagramReceived(data, ('127.0.0.1', 1000 + c))
         except Exception as e:
@@ -379,8 +394,19 @@ def _run_tw_udp(framing_cls, ctx, script, flags):
 
 def run(frontend, framing, ctx, script, ignore_missing_slaves=False, broadcast_enable=False):
     from vlib import pm
-    # an empty read is end-of-stream on a socket and cannot be received as a datagram: never deliver one
-    script = [(c, d) for c, d in script if d]
+    # an empty read is end-of-stream on a socket and cannot be received as a datagram: never deliver one.
+    # (conn, None) = an idle receive timeout on that connection (only the sync stream handler can observe one);
+    # (conn, data, 'burst') = the next item is delivered before the event loop gives the handler a turn (asyncio only).
+    norm = []
+    for it in script:
+        c, d = it[0], it[1]
+        flag = it[2] if len(it) > 2 else None
+        if d is None:
+            if frontend == 'sync_tcp':
+                norm.append((c, None, None))
+        elif d:
+            norm.append((c, d, flag))
+    script = norm
     fc = pm.framer_class(framing)
     flags = {'ignore_missing_slaves': ignore_missing_slaves, 'broadcast_enable': broadcast_enable}
     if frontend in ('sync_tcp', 'sync_serial'):
